@@ -511,6 +511,19 @@ def flag_word_rule(ctx):
             tests = [a for a in o.state.kn.atoms[n0:]
                      if isinstance(a, Sym) and
                      T.mentions(a, lambda t: t.op == 'bitand')]
+            if not tests and kind == 'conts' and isinstance(
+                    lp.get('test'), Sym):
+                # `while more: ...; more = bool(word & 1)`: the condition
+                # of the next iteration is the value the body leaves in the
+                # variable the loop tests
+                for nm_, v0_ in lp['start_env'].items():
+                    if isinstance(v0_, Sym) and T.mentions(
+                            lp['test'], lambda t, v0_=v0_: t is v0_):
+                        nv_ = o.state.env.get(nm_)
+                        if isinstance(nv_, Sym) and T.mentions(
+                                nv_, lambda t: t.op == 'bitand'):
+                            tests.append(nv_ if nv_.op != 'typed'
+                                         else nv_.args[0])
             okc = None
             desc = 'no test of the flag word found'
             for a in tests:
